@@ -39,7 +39,7 @@ REPO_EXAMPLES = [
 # (source text, hashable?) -- every entry folds to ONE constant on 3.7 .. 3.10
 ZOO_SCALARS = [
     "None", "True", "False", "...",
-    "0", "1", "-1", "2", "255", "256", "65535", "65536",
+    "0", "1", "-1", "-2", "2", "255", "256", "65535", "65536",
     "9007199254740991", "9007199254740992", "9007199254740993",
     "-9007199254740991", "-9007199254740992", "-9007199254740993",
     "9223372036854775807", "9223372036854775808", "-9223372036854775808", "-9223372036854775809",
@@ -77,6 +77,10 @@ CONFUSABLE_FAMILIES = [
     ["2", "2.0", "(2+0j)"],
     ["''", "b''", "()"],
     ["1e999", "-1e999", "(1e999-1e999)"],
+    # different constants whose hashes collide in CPython (hash(-1) == hash(-2); ints 2**61-1 apart)
+    ["-1", "-2"],
+    ["-1.0", "-2.0"],
+    ["5", "2305843009213693956"],
 ]
 # spelled differently but the SAME constant (all NaNs are identified; equal ints)
 SAME_FAMILIES = [
